@@ -77,6 +77,9 @@ func zzParam(s *State, a []Value) Value {
 	name := s.strArg(a[0])
 	v, ok := s.W.Job.Params[name]
 	if !ok {
+		if name == "json" {
+			return "" // optional: a concrete document instead of the symbolic one
+		}
 		s.abort("missing job parameter %q", name)
 	}
 	return v
